@@ -34,6 +34,64 @@ def cmp_jobs(tier):
     return js
 
 
+REG_SRC = ["Lib/core/src.c", "Lib/core/mod.c", "Lib/core/main.c", "Lib/utils/utils.c", "Lib/utils/mem.c",
+           "Lib/mem/mem.c", "Lib/structs/stack.c", "Lib/structs/queue.c", "Lib/structs/map.c"]
+# (bst.c is #included by the harness: it lays out pre-states directly)
+MEMHOOK_FP = [(r"memhook\._free$", ["vf_free"]), (r"memhook\._calloc$", ["calloc"]), (r"memhook\._malloc$", ["malloc"]),
+              (r"libmodule_logger\.", ["vf_log_noop"])]
+H = "c09_reg.c"
+# at most 3 sources per tree: tree loops are bounded lower than the loops over the 8 kinds; every bound is checked by
+# an unwinding assertion
+REG_UNWIND = {"m_mem_unref": 3, fl("find_min_subtree", "bst.c") + ".0": 4, fl("bst_find", "bst.c") + ".0": 4,
+              fl("bst_next", "bst.c") + ".0": 4, "m_bst_clear.0": 4, fl("remove_node", "bst.c"): 2, fl("walk", H): 5,
+              "m_mod_src_len.1": 4, fl("manage_srcs", "mod.c") + ".0": 4}
+OPS = {0: "reg", 1: "dereg", 2: "stop", 3: "pause", 4: "resume", 5: "oneshot", 6: "count"}
+SHAPES = {(0, 0): "empty", (1, 0): "one", (2, 0): "two-right", (2, 1): "two-left"}
+
+
+def reg_job(kind, npre, shape, op, thr=None, timeout=600):
+    nm, cmpf = KINDS[kind]
+    d = {"KIND": kind, "NPRE": npre, "SHAPE": shape, "OP": op, "VF_MANAGE_SRCS": fl("manage_srcs", "mod.c"),
+         "VF_CREATE_SRC": fl("create_src", "src.c")}
+    name = "C09.reg.%s.%s.%s" % (nm, SHAPES[(npre, shape)], OPS[op])
+    if thr is not None:
+        d["VF_THR"] = thr
+        name += ".%s" % ("ms", "freq")[thr]
+    return Job(name, "l1/c09_reg.c", sources=REG_SRC, extra_harness=["common/vf_defs.c"],
+               remove=["m_ctx", "fetch_ms"], fsa=1024, layer="l1", backend="cadical", defines=d,
+               unwind=10, unwindset=REG_UNWIND, common_fp=False,
+               fp=core_fp(mem_dtors=[SRC_DTOR], comps=[fl(cmpf, "src.c")], extra=MEMHOOK_FP),
+               kf=["C09_eexist_owner"] if (kind == 1 and op == 0 and npre > 0) else [],
+               native={"sources": ["Lib/core/main.c", "Lib/utils/mem.c", "Lib/mem/mem.c", "Lib/structs/stack.c",
+                                   "Lib/structs/queue.c", "Lib/structs/map.c"]},
+               symbolic=["pre-state keys (inside the order the tree shape needs) and the operation's key at full "
+                         "width incl. invalid values / NULL", "module state (4)", "flag words of every source and of "
+                         "the call", "token count", "private descriptor numbers", "which source fires / is internal"],
+               bounds="pre-state: %s (%d sources of the kind), one operation: %s" % (SHAPES[(npre, shape)], npre, OPS[op]),
+               timeout=timeout, mem_gb=12)
+
+
+def reg_jobs(tier):
+    js = []
+    for kind, (nm, _) in KINDS.items():
+        thrs = [0, 1] if nm == "thresh" else [None]
+        for thr in thrs:
+            for (npre, shape) in SHAPES:
+                for op in OPS:
+                    if npre == 0 and op not in (0, 1, 6):
+                        continue
+                    if tier == "quick":
+                        # quick: the two-source shapes for every operation, smaller pre-states for register / deregister
+                        if npre == 1 and op not in (0, 1):
+                            continue
+                        if npre == 0 and op != 0:
+                            continue
+                        if (npre, shape) == (2, 1) and op in (2, 3, 4, 6):
+                            continue
+                    js.append(reg_job(kind, npre, shape, op, thr))
+    return js
+
+
 META = {
     "functions": [],
     "stubs": [],
@@ -44,7 +102,7 @@ META = {
 
 
 def jobs(tier):
-    return cmp_jobs(tier)
+    return cmp_jobs(tier) + reg_jobs(tier)
 
 
 MANIFEST = {
